@@ -20,7 +20,7 @@ from contextlib import AsyncExitStack
 from typing import Any
 
 import anyio
-from anyio import move_on_after
+from anyio import CancelScope, move_on_after
 
 from asphalt.core import (
     Component,
@@ -49,6 +49,10 @@ from .common import DTS, SimError, SimLookup, contains_cancel, is_cancel, pick, 
 
 class _Owner:
     sig = Signal(Event)
+
+
+class HelperT:
+    """What the helper task left behind by a prepare() publishes."""
 
 
 class SimTimeout(TimeoutError):
@@ -290,6 +294,8 @@ class H:
         self.round = 0
         self.ndecoy = 0
         self.cctx: dict[str, Any] = {}
+        self.in_phase: dict[str, Any] = {}
+        self.side_tg: Any = None
         self.td_callables: dict[str, Any] = {}
         self.block_ended = anyio.Event()
         self.sc_done = anyio.Event()
@@ -423,12 +429,15 @@ class H:
         self.cctx[path] = current_context()
         sim.log("phase_begin", path=path, phase=phase, same=inst is self.instances.get(path), round=self.round)
         how = "done"
+        self.in_phase[path] = phase
         try:
             await self.acts(n.get(phase) or (), path, n, phase)
         except BaseException as e:
             how = "cancelled" if is_cancel(e) else "failed"
             raise
         finally:
+            # (a start() that was aborted leaves the component "starting" for good)
+            self.in_phase[path] = None if how == "done" else "aborted"
             sim.log("phase_end", path=path, phase=phase, how=how, round=self.round)
 
     async def acts(self, acts: Any, path: str, n: dict, phase: str) -> None:
@@ -487,6 +496,14 @@ class H:
                 self.conflict_handled(a[1], path, phase)
             elif op == "stall":
                 sim.stall(a[1])
+            elif op == "sp":
+                # work that must not be interrupted (shielded from cancellation)
+                sim.log("sp_begin", path=path, t=sim.now(), round=self.round)
+                with CancelScope(shield=True):
+                    await sim.pause(0, a[1])
+                sim.log("sp_end", path=path, t=sim.now(), round=self.round)
+            elif op == "helper_pub":
+                self.helper_pub(a[1], path, n)
             elif op == "fail":
                 sim.fault("raise_in_" + phase)
                 if a[1] == "conflict":
@@ -506,6 +523,29 @@ class H:
                 e.tag = f"F:{path}:{phase}"  # type: ignore[attr-defined]
                 sim.log("fail", path=path, phase=phase, tag=e.tag)  # type: ignore[attr-defined]
                 raise e
+
+    def helper_pub(self, spec: dict, path: str, n: dict) -> None:
+        """prepare() leaves a helper task behind (it keeps the component's context) that
+        publishes a default-named resource as soon as it gets to run: whether that name is
+        re-mapped depends on whether start() is executing at that moment - and on nothing else."""
+        sim = self.sim
+        if self.side_tg is None:
+            return
+        h = self
+        rnd = self.round
+
+        async def helper() -> None:
+            try:
+                in_phase = h.in_phase.get(path)
+                add_resource(HelperT(), "default", [HelperT])
+                names = sorted(h.real.get_resources(HelperT)) if h.real is not None else None
+                sim.log("helper_pub", path=path, in_phase=in_phase, names=names, alias=n.get("alias"), round=rnd)
+            except BaseException as e:  # noqa: BLE001
+                if is_cancel(e):
+                    raise
+                sim.log("helper_pub", path=path, in_phase=None, names=None, exc=type(e).__name__, round=rnd)
+
+        self.side_tg.start_soon(helper, name=f"w:helper_{path}")
 
     def conflict_handled(self, spec: dict, path: str, phase: str) -> None:
         """A publication that is rejected half-way and handled by the component: two types,
@@ -832,7 +872,7 @@ def plan_duration(plan: dict) -> float:
             for a in n.get(ph) or ():
                 if a[0] == "p":
                     total += a[2]
-                elif a[0] == "stall":
+                elif a[0] in ("stall", "sp"):
                     total += a[1]
                 elif a[0] == "pub" and a[1].get("fdur"):
                     total += a[1]["fdur"]
@@ -920,6 +960,26 @@ def make_main(plan: dict):
                     if "timeout" in plan:
                         kw["timeout"] = plan["timeout"]
                     outcome = "returned"
+                    side = None
+                    tweaked: list = []
+                    if plan.get("side"):
+                        # helper tasks living beside the start-up (same calling context)
+                        side = anyio.create_task_group()
+                        await side.__aenter__()
+                        h.side_tg = side
+                        if plan.get("tweak"):
+                            # somebody edits the configuration object right after handing it
+                            # to start_component(): the tree was read from it at the call
+                            async def tweaker() -> None:
+                                seen_: set = set()
+                                for sub_ in (cfg.get("components") or {}).values():
+                                    if isinstance(sub_, dict) and id(sub_) not in seen_:
+                                        seen_.add(id(sub_))
+                                        tweaked.append((sub_, "a" in sub_, sub_.get("a")))
+                                        sub_["a"] = "TWEAKED"
+                                sim.log("tweaked", n=len(tweaked), round=rnd)
+
+                            side.start_soon(tweaker, name="w:tweaker")
                     try:
                         if plan.get("outer_cancel") is not None:
                             with move_on_after(plan["outer_cancel"]) as scope:
@@ -931,6 +991,11 @@ def make_main(plan: dict):
                         else:
                             comp = await start_component(root_type, cfg, **kw)
                     except BaseException as e:
+                        if is_cancel(e) and side is not None:
+                            side.cancel_scope.cancel()
+                            with CancelScope(shield=True):
+                                await side.__aexit__(None, None, None)
+                            side = None
                         if is_cancel(e):
                             raise
                         outcome = "raised"
@@ -955,6 +1020,17 @@ def make_main(plan: dict):
                                 round=rnd,
                             )
                     h.sc_done.set()
+                    if side is not None:
+                        # (let the helpers have their turn, then put the edited values back)
+                        await sim.pause(2, 0.0)
+                        side.cancel_scope.cancel()
+                        await side.__aexit__(None, None, None)
+                        h.side_tg = None
+                        for sub_, had_, old_ in tweaked:
+                            if had_:
+                                sub_["a"] = old_
+                            else:
+                                sub_.pop("a", None)
                     # configuration must be intact after every ending
                     ids1: dict = {}
                     _ids(cfg, ids1)
@@ -1138,6 +1214,8 @@ def model_timeline(plan: dict) -> dict:
                 op = a[0]
                 if op == "p":
                     t += a[2]
+                elif op == "sp":
+                    t += a[1]
                 elif op == "stall":
                     t += a[1]
                     has_stall = True
@@ -1489,6 +1567,18 @@ def oracle(sim: Sim, plan: dict) -> list[dict]:
                     pass
                 else:
                     v("C06.false_wakeup", "released", f"a component waiting for a resource nobody publishes was released: {sc_end[5]}")
+            elif plan.get("sp_tail"):
+                # the root's start() ends with uninterruptible work: if that is under way when
+                # the timeout strikes, TimeoutError comes out as soon as it has finished
+                spb = next((r for r in tr if r[4] == "sp_begin"), None)
+                spe = next((r for r in tr if r[4] == "sp_end"), None)
+                want_t = tau
+                if spb is not None and spb[5]["t"] - t0 < tau - 1e-9:
+                    want_t = (spe[5]["t"] - t0) if spe is not None else None
+                elif spb is not None and abs((spb[5]["t"] - t0) - tau) <= 1e-9:
+                    want_t = None  # a tie: either
+                if want_t is not None and abs((sc_end[5]["t"] - t0) - want_t) > 1e-9:
+                    v("C07.timeout", "wrong_instant", f"TimeoutError raised at t0+{sc_end[5]['t'] - t0}; timeout {tau}, uninterruptible work from {spb and spb[5]['t'] - t0} to {spe and spe[5]['t'] - t0}: expected at t0+{want_t}")
             elif abs((sc_end[5]["t"] - t0) - tau) > 1e-9:
                 v("C07.timeout", "wrong_instant", f"TimeoutError raised at t0+{sc_end[5]['t'] - t0}, timeout is {tau}")
         elif expect == "tie":
@@ -1815,6 +1905,12 @@ def oracle(sim: Sim, plan: dict) -> list[dict]:
                     v("C02.component_parent", "snapshot", f"Context() created in {d['phase']}() of {d['path']} does not see what the calling context holds: {d['diff']}")
                 if not d["inside"] or not d["restored"]:
                     v("C12.current", "component_phase", f"current_context() around a nested context in {d['path']}: {d}")
+    for r in sim.trace:
+        if r[4] == "helper_pub" and r[5].get("names") is not None and r[5].get("in_phase") != "aborted":
+            d_ = r[5]
+            want_nm = d_["alias"].split("/", 1)[1] if d_["in_phase"] == "start" and "/" in (d_["alias"] or "") else "default"
+            if d_["names"] != [want_nm]:
+                v("C14.remap", "helper_between_phases", f"a task left behind by prepare() of {d_['path']} published a resource named 'default' while {'start()' if d_['in_phase'] == 'start' else 'neither prepare() nor start()' if d_['in_phase'] is None else 'prepare()'} of the component was executing: it is registered as {d_['names']}, expected {[want_nm]}")
     for r in sim.trace:
         if r[4] == "ccprobe" and not r[5]["ok"]:
             v("C12.parent", "component_phase@recycled_component_context", "a context created in start() of a component, started in a fresh host context after many earlier start-ups in other (closed) host contexts, did not get its own host context as parent")
@@ -2168,6 +2264,19 @@ def _forward_waits(g: "G", tree: dict, rng: random.Random) -> None:
         n[ph].insert(pos, w)
         if model_timeline({"tree": tree})["finish"] is None:
             n[ph].remove(w)
+            continue
+        if rng.random() < 0.35:
+            # ... and a component elsewhere waits for the very same resource but loses
+            # patience (usually before it is published): its going away must not disturb
+            # the one that keeps waiting
+            others = [(p3, n3, ph3) for p3, n3, ph3 in phases if p3 not in (path, ppath)]
+            if others:
+                p3, n3, ph3 = rng.choice(others)
+                g.nw += 1
+                w3 = ["wait", {"wid": f"w{g.nw}", "t": spec["t"], "name": final_name(pn, spec, pph), "giveup": rng.choice((0.25, 0.5, 1.0))}]
+                n3[ph3].insert(0, w3)
+                if model_timeline({"tree": tree})["finish"] is None:
+                    n3[ph3].remove(w3)
 
 
 def _alias_trap(g: "G", tree: dict, rng: random.Random) -> None:
@@ -2381,6 +2490,7 @@ def gen(rng: random.Random, tier: str, prop: str) -> dict:
     if rng.random() < 0.3:
         plan["nest"] = True
     nodes = list(walk(tree))
+    want_sp_tail = False
     r = rng.random()
     fail_p = {"C07": 0.55, "C14": 0.2, "C05": 0.0, "C06": 0.0}.get(prop, 0.1)
     timeout_p = {"C07": 0.35, "C14": 0.1, "C05": 0.1, "C06": 0.1}.get(prop, 0.1)
@@ -2405,7 +2515,10 @@ def gen(rng: random.Random, tier: str, prop: str) -> dict:
         m = model_timeline(plan)
         F = m["finish"]
         mode = rng.random()
-        if mode < 0.3:
+        if prop == "C07" and mode > 0.88 and F is not None:
+            want_sp_tail = True
+            plan["timeout"] = rng.choice((0.25, 1.0, 20))
+        elif mode < 0.3:
             # a component waits for something nobody publishes
             cands = [(p, n, ph) for p, n in nodes for ph in ("prepare", "start") if n.get(ph) is not None]
             if cands:
@@ -2464,8 +2577,32 @@ def gen(rng: random.Random, tier: str, prop: str) -> dict:
         plan["twice"] = True
     if prop in ("C06", "C05", "C18") and rng.random() < 0.15:
         plan["noisy_listener"] = rng.choice((0, 1, 2))
+    if want_sp_tail and not any(a_[0] == "fail" for _p, n_ in nodes for ph_ in ("prepare", "start") for a_ in n_.get(ph_) or ()) and not any(
+        sp_.get("raise") for _p, _ph, sp_ in all_subs(plan)
+    ):
+        # the root's start() ends with uninterruptible work and the timeout strikes in the
+        # middle of it (nothing yields to the scheduler afterwards): the overrun is still
+        # reported, as soon as that work has finished
+        if tree.get("start") is None:
+            tree["start"] = []
+        dur_ = rng.choice((1.0, 2.0, 4.0))
+        tree["start"].append(["sp", dur_])
+        F2 = model_timeline(expand_subs(plan)[0])["finish"]
+        if F2 is not None and F2 - dur_ / 2 > 0:
+            plan["timeout"] = F2 - dur_ / 2
+            plan["sp_tail"] = True
+        else:
+            tree["start"].pop()
     if prop == "C12" and rng.random() < 0.25:
         plan["ccprobe"] = True
+    if prop == "C14" and "outer_cancel" not in plan and rng.random() < 0.15:
+        plan["side"] = True
+        if rng.random() < 0.5:
+            plan["tweak"] = True
+        cands_ = [(p_, n_) for p_, n_ in nodes if "/" in n_.get("alias", "") and n_.get("prepare") is not None and not any(a_[0] == "fail" for a_ in n_["prepare"])]
+        if cands_:
+            p_, n_ = rng.choice(cands_)
+            n_["prepare"].append(["helper_pub", {}])
     if prop == "C07" and "twice" not in plan and rng.random() < 0.08:
         # the very same configuration object is used for a second attempt (a retry)
         plan["twice"] = True
